@@ -99,6 +99,7 @@ func runC02(s *kernel.Sim) {
 		s.HarnessErr = "engine rejected generated C02 configuration: " + err.Error()
 		return
 	}
+	s.LogEngineEvents = false // their mutual order depends on engine-internal map iteration
 	inGroup := false
 	s.YieldOn = func(point string, a []string, harness bool) bool {
 		return harness && inGroup && isLockPoint(point) && siteOn(a[0])
